@@ -245,3 +245,37 @@ def is_ok_ctor(path):
 
 def body_of(fn):
     return fn.hir["body"] if fn.hir else None
+
+
+def subst(n, mapping):
+    """copy of the tree with every `path` to a local named in `mapping` replaced by mapping[name] (an expression node)"""
+    if isinstance(n, list):
+        return [subst(x, mapping) for x in n]
+    if not isinstance(n, dict):
+        return n
+    if n.get("k") == "path" and n.get("res", {}).get("local") in mapping:
+        return mapping[n["res"]["local"]]
+    return {k: subst(v, mapping) for k, v in n.items()}
+
+
+def inline_local_calls(fn_body, local_fns, pred, depth=2, skip=None):
+    """expressions found (by `pred`) in `fn_body` or, through calls to crate-local helper functions, in a helper's body with
+    the helper's parameters replaced by the caller's argument expressions.  yields (node, line_in_caller)"""
+    for x in walk(fn_body):
+        if pred(x):
+            yield x, x.get("ln")
+    if depth <= 0:
+        return
+    for c in calls(fn_body):
+        callee = local_fns.get(c.get("fn"))
+        if callee is None or not callee.hir or callee.hir["body"] is fn_body or (skip and skip.search(callee.path)):
+            continue
+        names = [b for p in callee.hir["params"] for b in pat_binds(p)]
+        args = list(c.get("args") or [])
+        if c.get("k") == "mcall":
+            args = [c["recv"]] + args
+        if len(names) != len(args):
+            continue
+        mapping = dict(zip(names, args))
+        for node, _ln in inline_local_calls(callee.hir["body"], local_fns, pred, depth - 1, skip):
+            yield subst(node, mapping), c.get("ln")
